@@ -1008,7 +1008,8 @@ where
     ```
     */
     pub fn number_of_edges(&self) -> usize {
-        self.edges.len()
+        // `edges` is keyed by node pair; parallel edges share a key
+        self.edges.values().map(|edges| edges.len()).sum()
     }
 
     /**
